@@ -232,7 +232,7 @@ package query
 //@     int(math.Ceil(float64(n) * p / 100.0)) >= 0))
 
 //@ func (*View).Limit
-//@   property C07 C19
+//@   property C07 C19 C14
 //@   safety
 //@   requires viewWf(view)
 //@   ensures [error-leaves-rows] result != nil ==> view.RecordSet == old(view.RecordSet)
@@ -1881,9 +1881,11 @@ package query
 // stays NULL; it becomes a frame value only when the n-th one is reached (a frame with fewer than n values yields NULL;
 // it used to yield the last value scanned: fix b13c9f1).
 //@ func setNthValue
-//@   property C17
+//@   property C17 C19
 //@   requires n >= 1
+//@   terminates
 //@   loop 2 invariant 0 <= count && count < n && val == value.NewNull()
+//@   loop 2 decreases len(partition) - i
 //@   modifies *
 
 // CUME_DIST / PERCENT_RANK work on the peer groups as lists: group g holds, in order, the rows whose dense rank is g + 1.
@@ -1990,7 +1992,10 @@ package query
 //@   trusted assumed summary: one key per row, built by SerializeComparisonKeys from the row's (selected) values in parallel workers; rows are not touched
 //@   ensures result == nil ==> len(view.comparisonKeysInEachRecord) == len(view.RecordSet)
 //@   ensures view.RecordSet == old(view.RecordSet)
+//@   ensures [slot-j-holds-the-key-of-row-j] result == nil ==> forall(j, 0, len(view.RecordSet), view.comparisonKeysInEachRecord[j] == keyOfRow(view.RecordSet[j]))
 //@   modifies view.comparisonKeysInEachRecord, fresh, looseKeys, strictKeys, keyBufsOut
+// the comparison key of a row (of its selected columns, under the session's equality mode), as the key workers compute it
+//@ spec func keyOfRow(r Record) string
 //@ spec def isRightKey(calc *View, k string) bool = exists(j, 0, len(calc.comparisonKeysInEachRecord), calc.comparisonKeysInEachRecord[j] == k)
 //@ func (*View).Except
 //@   property C04
@@ -2004,6 +2009,16 @@ package query
 //@   loop 2 invariant forall(j, 0, len(calcView.comparisonKeysInEachRecord), has(keys, calcView.comparisonKeysInEachRecord[j]) && keys[calcView.comparisonKeysInEachRecord[j]])
 //@   loop 2 invariant [kept-so-far-are-left-rows-whose-key-is-no-right-key] forall(q, 0, len(records),
 //@       exists(i, 0, $i, records[q] == view.RecordSet[i] && !isRightKey(calcView, view.comparisonKeysInEachRecord[i])))
+//@   loop 2 invariant forall(j, 0, len(view.RecordSet), view.comparisonKeysInEachRecord[j] == keyOfRow(view.RecordSet[j]))
+//@   loop 2 invariant [kept-keys-are-marked] !all ==> forall(q, 0, len(records), has(distinctKeys, keyOfRow(records[q])) && distinctKeys[keyOfRow(records[q])])
+//@   loop 2 invariant [no-bucket-is-split-so-far] !all ==> forall(a, 0, len(records), forall(b, 0, len(records), a != b ==> keyOfRow(records[a]) != keyOfRow(records[b])))
+//@   ensures [no-bucket-is-split] err == nil && !all ==> forall(a, 0, len(view.RecordSet), forall(b, 0, len(view.RecordSet), a != b ==> keyOfRow(view.RecordSet[a]) != keyOfRow(view.RecordSet[b])))
+//@   loop 2 invariant forallv(k, string, has(keys, k) && keys[k] ==> isRightKey(calcView, k))
+//@   loop 2 invariant [marked-keys-are-kept] !all ==> forallv(k, string, has(distinctKeys, k) && distinctKeys[k] ==> exists(q, 0, len(records), keyOfRow(records[q]) == k))
+//@   loop 2 invariant [every-left-bucket-outside-the-right-side-is-kept-so-far] forall(j, 0, $i, !isRightKey(calcView, view.comparisonKeysInEachRecord[j]) ==>
+//@       exists(q, 0, len(records), keyOfRow(records[q]) == keyOfRow(view.RecordSet[j])))
+//@   ensures [no-left-bucket-outside-the-right-side-is-lost] err == nil ==> forall(j, 0, old(len(view.RecordSet)), !isRightKey(calcView, keyOfRow(old(view.RecordSet)[j])) ==>
+//@       exists(q, 0, len(view.RecordSet), keyOfRow(view.RecordSet[q]) == keyOfRow(old(view.RecordSet)[j])))
 //@   loop 2 modifies fresh
 //@   modifies *
 //@ func (*View).Intersect
@@ -2018,7 +2033,30 @@ package query
 //@   loop 2 invariant forallv(k, string, has(keys, k) ==> isRightKey(calcView, k))
 //@   loop 2 invariant [kept-so-far-are-left-rows-whose-key-is-a-right-key] forall(q, 0, len(records),
 //@       exists(i, 0, $i, records[q] == view.RecordSet[i] && isRightKey(calcView, view.comparisonKeysInEachRecord[i])))
+//@   loop 2 invariant forall(j, 0, len(view.RecordSet), view.comparisonKeysInEachRecord[j] == keyOfRow(view.RecordSet[j]))
+//@   loop 2 invariant [kept-keys-are-marked] !all ==> forall(q, 0, len(records), has(distinctKeys, keyOfRow(records[q])) && distinctKeys[keyOfRow(records[q])])
+//@   loop 2 invariant [no-bucket-is-split-so-far] !all ==> forall(a, 0, len(records), forall(b, 0, len(records), a != b ==> keyOfRow(records[a]) != keyOfRow(records[b])))
+//@   ensures [no-bucket-is-split] err == nil && !all ==> forall(a, 0, len(view.RecordSet), forall(b, 0, len(view.RecordSet), a != b ==> keyOfRow(view.RecordSet[a]) != keyOfRow(view.RecordSet[b])))
 //@   loop 2 modifies fresh
+//@   modifies *
+// UNION (without ALL): of the rows of both operands exactly one per bucket is kept (the first), and no bucket is lost
+//@ func (*View).Union
+//@   property C04
+//@   requires view != nil && calcView != nil && view != calcView && len(view.RecordSet) + len(calcView.RecordSet) <= MaxInt64
+//@   ensures [no-bucket-is-split] err == nil && !all ==> forall(a, 0, len(view.RecordSet), forall(b, 0, len(view.RecordSet), a != b ==> keyOfRow(view.RecordSet[a]) != keyOfRow(view.RecordSet[b])))
+//@   ensures [no-bucket-is-lost] err == nil && !all ==> forall(j, 0, old(len(view.RecordSet)), exists(q, 0, len(view.RecordSet), keyOfRow(view.RecordSet[q]) == keyOfRow(old(view.RecordSet)[j]))) &&
+//@       forall(j, 0, len(calcView.RecordSet), exists(q, 0, len(view.RecordSet), keyOfRow(view.RecordSet[q]) == keyOfRow(calcView.RecordSet[j])))
+//@   ensures [all-keeps-every-row] err == nil && all ==> len(view.RecordSet) == old(len(view.RecordSet)) + len(calcView.RecordSet)
+//@   loop 1 invariant 0 <= $i && $i <= len(view.comparisonKeysInEachRecord) && fresh(records) && len(view.comparisonKeysInEachRecord) == len(view.RecordSet) && values != nil
+//@   loop 1 invariant len(view.RecordSet) == old(len(view.RecordSet)) + len(calcView.RecordSet) && base(records) != base(view.RecordSet)
+//@   loop 1 invariant forall(k, 0, old(len(view.RecordSet)), view.RecordSet[k] == old(view.RecordSet)[k])
+//@   loop 1 invariant forall(k, 0, len(calcView.RecordSet), view.RecordSet[old(len(view.RecordSet)) + k] == calcView.RecordSet[k])
+//@   loop 1 invariant forall(j, 0, len(view.RecordSet), view.comparisonKeysInEachRecord[j] == keyOfRow(view.RecordSet[j]))
+//@   loop 1 invariant [kept-keys-are-marked] forall(q, 0, len(records), has(values, keyOfRow(records[q])) && values[keyOfRow(records[q])])
+//@   loop 1 invariant [marked-keys-are-kept] forallv(k, string, has(values, k) && values[k] ==> exists(q, 0, len(records), keyOfRow(records[q]) == k))
+//@   loop 1 invariant [no-bucket-is-split-so-far] forall(a, 0, len(records), forall(b, 0, len(records), a != b ==> keyOfRow(records[a]) != keyOfRow(records[b])))
+//@   loop 1 invariant [every-row-so-far-has-its-bucket-kept] forall(j, 0, $i, exists(q, 0, len(records), keyOfRow(records[q]) == keyOfRow(view.RecordSet[j])))
+//@   loop 1 modifies fresh
 //@   modifies *
 
 // the comparison key of a row is built from exactly the values of the selected columns of that row (all columns when no
